@@ -172,6 +172,9 @@ func c03Arm(p *Program) {
 					cp := append([]string{}, list...)
 					sort.Strings(cp)
 					rec.Ev("allowed(%s)=%v", m.ID, cp)
+					// (the order in which the router lists the methods is not fixed: sort before editing,
+					// so that the edit - and what a later handler of the same request finds - is deterministic)
+					sort.Strings(list)
 					list[0] = strings.ToLower(list[0])
 				}
 			}
